@@ -16,11 +16,14 @@ def frame(ids, lines, **kw):
 
 
 def obligations(tier, seed):
-    U = ["src/dvb_demux.c", "src/hamm.c"]
+    U = ["src/hamm.c"]
     stubs = ["_vbi_global_log zero (as before vbi_set_log_fn), _vbi_log_printf empty (never reached: masks 0)",
              "_vbi_sampling_par_valid_log: asserted unreachable (no raw VBI/sampling parameters passed)"]
     loopmem = "memcpy/memmove/memset byte-loop models (models/c06_env.h, ENV_LOOP_MEM) so that constants propagate through block copies"
-    common = dict(harness="h_c06.c", units=U)
+    # `p_end = p + mx->max_packet_size - 46` (dvb_mux.c generate_pes_packet) forms p + max_packet_size first, which is 46 bytes beyond the end of the
+    # packet buffer (also with the real 65508 byte buffer and the default max size 65504) before 46 is subtracted: standard-level UB no compiler or
+    # sanitizer distinguishes -> ub_note, not a violation
+    common = dict(harness="h_c06.c", units=U, ignore=[r"generate_pes_packet:pointer arithmetic: pointer outside object bounds in p \+"])
     # ---- (a1) conformance, everything symbolic, independent parser only
     conf_q = [dict(NL=2, BUF=92, FIXED=1), dict(NL=2, BUF=52, FIXED=0)]
     conf_t = conf_q + [dict(NL=2, BUF=46, FIXED=1), dict(NL=3, BUF=92, FIXED=1), dict(NL=2, BUF=22, FIXED=0), dict(NL=2, BUF=6, FIXED=0),
@@ -63,14 +66,42 @@ def obligations(tier, seed):
         for t in (0, 1) for (f, d) in ((1, "0x10"), (0, "0x99"))
     ] + [frame([TTX, CC], [22, 21], TS=1, PMIN=184, PMAX=368, FIXED=0, DI="0x99"),
          frame([WSS], [23], TS=1, PMIN=368, PMAX=552, FIXED=1, DI="0x12")]
-    rej_q = [dict(NL=2, TS=1, PMIN=184, PMAX=184, FIXED=1), dict(NL=3, TS=0, PMIN=184, PMAX=184, FIXED=0)]
-    rej_t = rej_q + [dict(NL=4, TS=1, PMIN=184, PMAX=184, FIXED=1), dict(NL=3, TS=1, PMIN=184, PMAX=368, FIXED=0)]
-    cor_q = [dict(NL=2, TS=1, PMIN=184, PMAX=184, FIXED=1, OBUF=50), dict(NL=2, TS=0, PMIN=184, PMAX=184, FIXED=0, OBUF=184)]
-    cor_t = cor_q + [dict(NL=2, TS=t, PMIN=184, PMAX=184, FIXED=f, OBUF=o) for t in (0, 1) for f in (0, 1) for o in (1, 3, 187, 188, 189, 400)]
+    bad_frames = [
+        frame([TTX, TTX], [8, 7], FIXED=1, DI="0x10"),                   # descending
+        frame([TTX, VPS, TTX], [7, 17, 320], FIXED=0, DI="0x99"),        # VPS on line 17
+        frame([WSS, BAD_525], [23, 284], FIXED=1, DI="0x1F"),            # service the multiplexer cannot encode
+        frame([TTX, TTX, TTX, TTX], [7, 8, 9, 10], FIXED=0, DI="0x9B"),  # 4 x 46 > 138: too big for 184
+        frame([TTX, CC], [23, 21], FIXED=0, DI="0x99"),                  # Teletext on line 23
+    ]
+    rej_q = [dict(f, TS=t, PMIN=184, PMAX=184) for (f, t) in zip(bad_frames[:3], (1, 0, 1))]
+    rej_t = [dict(f, TS=t, PMIN=184, PMAX=184) for f in bad_frames for t in (0, 1)]
+    cor_frames = [frame([TTX, VPS, WSS], [7, 16, 23], FIXED=1, DI="0x10"), frame([CC, TTX], [21, 320], FIXED=0, DI="0x99"), bad_frames[0], bad_frames[3]]
+    cor_q = [dict(cor_frames[0], TS=1, PMIN=184, PMAX=184, OBUF=50), dict(cor_frames[1], TS=0, PMIN=184, PMAX=184, OBUF=184),
+             dict(cor_frames[2], TS=1, PMIN=184, PMAX=184, OBUF=64)]
+    cor_t = cor_q + [dict(f, TS=t, PMIN=184, PMAX=184, OBUF=o) for f in cor_frames[:2] for t in (0, 1) for o in (1, 3, 187, 188, 189, 400)] \
+                  + [dict(cor_frames[3], TS=0, PMIN=184, PMAX=184, OBUF=100)]
     uw_rt = {"extract_data_units.8": 12, "encode_stuffing.0": 10, "memcpy.0": 1000, "memset.0": 1000, "memmove.0": 1000, "memmove.1": 1000}
-    uw_pk = dict(uw_rt); uw_pk.update({"rec_cb.0": 600, "gather_pes.0": 600, "gather_pes.1": 6, "gather_pes.2": 200,
-                                       "check_stuffing_tail.0": 300})
+    uw_pk = dict(uw_rt); uw_pk.update({"rec_cb.0": 600, "gather_pes.0": 600, "gather_pes.1": 6, "gather_pes.2": 200, "check_stuffing_tail.0": 300,
+                                       "demux_pes_packet.1": 4, "demux_pes_packet.3": 12, "demux_pes_packet_frame.1": 3, "demux_ts_packet.0": 4,
+                                       "demux_ts_packet.9": 16, "rdx_cb.0": 12})
     fs = ["--max-field-sensitivity-array-size", "1200"]
+    pk_desc = ("vbi_dvb_pes_mux_new/vbi_dvb_ts_mux_new + set_pes_packet_size + set_data_identifier + vbi_dvb_mux_feed with a recording callback; frame structure on the grid, "
+               "symbolic 64-bit PTS, payload, data_identifier of the class: accepted iff every selected line is legal, ascending and the units fit max_packet_size-46; "
+               "PES: 00 00 01 BD, PES_packet_length = size-6, size multiple of 184 in [min,max], '10' flags, data_alignment_indicator, PTS only (0x80), "
+               "header_data_length 0x24, PTS '0010' prefix + 3 marker bits + 33 PTS bits in place, 31 stuffing bytes, data_identifier at byte 45, data units as in "
+               "mux_sliced_conformance up to the end of the packet; TS: 188 byte packets, sync 0x47, no error/scrambling, payload only, PID, payload_unit_start only on "
+               "the first, continuity counters consecutive within and across frames; rejected frame: no callback at all; a second valid frame is accepted afterwards; "
+               "END TO END: all emitted bytes fed to the real vbi_dvb_demux_feed: frame 1 is delivered once, at the frame boundary, with PTS & (2^33-1), the same lines/services/"
+               "line numbers/payload; frame 2 is pending with its own PTS")
+    pk_enc = ["vbi_dvb_mux_feed", "generate_pes_packet", "encode_timestamp", "init_pes_packet_header", "generate_ts_packet_header",
+              "vbi_dvb_pes_mux_new", "vbi_dvb_ts_mux_new", "vbi_dvb_mux_set_pes_packet_size", "vbi_dvb_mux_set_data_identifier",
+              "vbi_dvb_demux_feed", "demux_pes_packet", "demux_pes_packet_frame", "valid_vbi_pes_packet_header", "decode_timestamp", "extract_data_units", "wrap_around"]
+    pk_assumes = ["R7/R2(e): multiplexer = directly constructed post-constructor state in a static object (zero + the fields the constructor sets + real "
+                  "init_pes_packet_header) with an exact-size packet buffer of 4+max_packet_size bytes instead of 65508; mux_ctor decides that the real constructors "
+                  "produce exactly this state",
+                  "R7/R2(e): demux = static zero object + real vbi_dvb_demux_reset(); frame output array re-pointed to NL+2 lines"]
+    pk_bounds = "frame structures/packet size limits/PID on the grid (184..552 bytes, 1..3 TS packets); two frames per run"
+    pk_outside = "PES packets > 552 bytes; raw VBI lines; callback returning FALSE; symbolic PID in the end-to-end run (symbolic in mux_config)"
     return [
         Ob("mux_sliced_conformance", func="h_mux_sliced", unwind=51, unwindset={"encode_stuffing.0": 5, "check_stuffing_tail.0": 70},
            solver="cadical",
@@ -102,34 +133,39 @@ def obligations(tier, seed):
         Ob("mux_sliced_badsize", func="h_mux_sliced_badsize", unwind=66,
            desc="*packet_left < 2, or not a multiple of 46 with data_identifier 0x10..0x1F: FALSE, all arguments and the buffer unchanged",
            encodes=["vbi_dvb_multiplex_sliced"], bounds="none (all 2^32 sizes/data_identifiers)", timeout=120, vin_size=256, stubs=stubs, **common),
-        Ob("mux_packets", func="h_mux_packets", unwind=51, unwindset=uw_pk, flags=fs, defines={"ENV_LOOP_MEM": 1},
-           desc="vbi_dvb_pes_mux_new/vbi_dvb_ts_mux_new + set_pes_packet_size + set_data_identifier + vbi_dvb_mux_feed with a recording callback; symbolic 64-bit PTS, "
-                "PID (all legal), data_identifier (class), payload: accepted iff every selected line is legal, ascending and the units fit max_packet_size-46; "
-                "PES: 00 00 01 BD, PES_packet_length = size-6, size multiple of 184 in [min,max], '10' flags, data_alignment_indicator, PTS only (0x80), "
-                "header_data_length 0x24, PTS '0010' prefix + 3 marker bits + 33 PTS bits in place, 31 stuffing bytes, data_identifier at byte 45, data units as in "
-                "mux_sliced_conformance up to the end of the packet; TS: 188 byte packets, sync 0x47, no error/scrambling, payload only, PID, payload_unit_start only on "
-                "the first, continuity counters consecutive within and across frames; real demultiplexer returns the lines; rejected frame: no callback at all; a second "
-                "valid frame is accepted afterwards (multiplexer usable)",
-           encodes=["vbi_dvb_mux_feed", "generate_pes_packet", "encode_timestamp", "init_pes_packet_header", "generate_ts_packet_header",
-                    "vbi_dvb_pes_mux_new", "vbi_dvb_ts_mux_new", "vbi_dvb_mux_set_pes_packet_size", "vbi_dvb_mux_set_data_identifier", "_vbi_dvb_demultiplex_sliced"],
-           assumes=["R2(e): after the real constructor ran mx->packet (65508 bytes) is replaced by an exact-size array of 4+max_packet_size bytes with the same contents"],
-           bounds="frame structures/packet size limits on the grid (184..552 bytes, 1..3 TS packets); two frames per run",
-           outside="PES packets > 552 bytes; raw VBI lines; callback returning FALSE",
-           grid=pk_t, quick_grid=pk_q, reach=["end"], timeout=300, mem_gb=3, vin_size=900, stubs=stubs + [loopmem], **common),
-        Ob("mux_reject_state", func="h_mux_reject_state", unwind=51, unwindset={"encode_stuffing.0": 6, "rec_cb.0": 600}, solver="cadical",
-           desc="any frame (symbolic ids/lines/mask/payload) that is illegal or too big, fed at an arbitrary continuity counter: vbi_dvb_mux_feed returns FALSE, "
-                "the callback is never called, every field of the multiplexer object (sizes, data_identifier, pid, continuity counter, coroutine cursors, callback) is unchanged",
+        Ob("mux_packets_pes", func="h_mux_packets", unwind=51, unwindset=uw_pk, flags=fs, defines={"ENV_LOOP_MEM": 1, "PIDV": "0x123"},
+           desc=pk_desc, encodes=pk_enc, assumes=pk_assumes + ["R2(e): demux pes_wrap.buffer re-pointed to an exact-size array of max_packet_size+8 bytes"],
+           bounds=pk_bounds, outside=pk_outside, grid=[g for g in pk_t if g["TS"] == 0], quick_grid=[g for g in pk_q if g["TS"] == 0],
+           reach=["end"], timeout=400, mem_gb=3, vin_size=900, stubs=stubs + [loopmem], **common),
+        Ob("mux_packets_ts", func="h_mux_packets", unwind=51, unwindset=uw_pk, flags=fs,
+           defines={"ENV_LOOP_MEM": 1, "PIDV": "0x1ABC", "SCALED_PES_BUFFER": 1, "PESCAP_SCALED": 576},
+           patch={"src/dvb_demux.c": [(r"pes_buffer\[ALIGN \(6 \+ 65536\)\]", "pes_buffer[PESCAP_SCALED]")]},
+           desc=pk_desc + "  [TS mode]", encodes=pk_enc + ["demux_ts_packet"],
+           assumes=pk_assumes + ["scaled unit: dvb_demux.c compiled with pes_buffer[576] instead of [65552] (PES packets here are <= 552 bytes; any access beyond is a bounds failure) "
+                                 "- the TS demultiplexer addresses dx->pes_buffer directly and symex over the 64 KB array took ~40 s per Teletext unit"],
+           bounds=pk_bounds, outside=pk_outside, grid=[g for g in pk_t if g["TS"] == 1], quick_grid=[g for g in pk_q if g["TS"] == 1],
+           reach=["end"], timeout=400, mem_gb=3, vin_size=900, stubs=stubs + [loopmem], **common),
+        Ob("mux_reject_state", func="h_mux_reject_state", unwind=51, unwindset=uw_pk, flags=fs, defines={"ENV_LOOP_MEM": 1},
+           desc="frames that are illegal or too big (structure on the grid: descending lines, VPS/Teletext on a wrong line, unsupported service, 4 Teletext lines into 184 bytes; "
+                "payload, PTS, PID, data_identifier of the class, continuity counter symbolic): vbi_dvb_mux_feed returns FALSE, the callback is never called, every field of "
+                "the multiplexer object (sizes, data_identifier, pid, continuity counter, coroutine cursors, callback, packet pointer) is unchanged",
            encodes=["vbi_dvb_mux_feed", "generate_pes_packet", "insert_sliced_data_units"],
-           assumes=["R2(e) packet buffer re-pointing as in mux_packets"], bounds="NL lines on the grid (2..4)",
-           grid=rej_t, quick_grid=rej_q, reach=["end"], timeout=600, mem_gb=3, vin_size=700, stubs=stubs, **common),
-        Ob("mux_cor_equals_feed", func="h_mux_cor_equiv", unwind=51, solver="cadical",
-           unwindset={"encode_stuffing.0": 6, "rec_cb.0": 600, "h_mux_cor_equiv.3": 400, "h_mux_cor_equiv.2": 401, "h_mux_cor_equiv.4": 400},
-           desc="the same symbolic frame through vbi_dvb_mux_feed (callback) and through vbi_dvb_mux_cor drained with an OBUF byte buffer: same verdict, same byte sequence, "
-                "buffer pointer/left consistent, every call makes progress and fills the buffer unless the frame is finished",
+           assumes=pk_assumes, bounds="bad frames on the grid", grid=rej_t, quick_grid=rej_q, reach=["end"], timeout=300, mem_gb=3, vin_size=700,
+           stubs=stubs + [loopmem], **common),
+        Ob("mux_cor_equals_feed", func="h_mux_cor_equiv", unwind=51, flags=fs, defines={"ENV_LOOP_MEM": 1},
+           unwindset=dict(uw_pk, **{"h_mux_cor_equiv.3": 401, "h_mux_cor_equiv.2": 401, "h_mux_cor_equiv.4": 401}),
+           desc="the same frame (structure on the grid, payload/PTS/PID symbolic) through vbi_dvb_mux_feed (callback) and through vbi_dvb_mux_cor drained with an OBUF byte "
+                "buffer: same verdict, same byte sequence, buffer pointer/left consistent, every call makes progress and fills the buffer unless the frame is finished; "
+                "a rejected frame emits nothing and *sliced/*sliced_left name the remaining lines",
            encodes=["vbi_dvb_mux_cor", "vbi_dvb_mux_feed", "generate_pes_packet", "generate_ts_packet_header"],
-           assumes=["R2(e) packet buffer re-pointing as in mux_packets"], bounds="one PES packet of 184 bytes, OBUF on the grid",
-           outside="coroutine with PES packets > 184 bytes", grid=cor_t, quick_grid=cor_q, reach=["end", "accepted"], timeout=600, mem_gb=3, vin_size=700,
-           stubs=stubs, **common),
+           assumes=pk_assumes, bounds="one PES packet of 184 bytes, OBUF on the grid (1..400 bytes)",
+           outside="coroutine with PES packets > 184 bytes", grid=cor_t, quick_grid=cor_q, reach=["end"], timeout=300, mem_gb=3, vin_size=700,
+           stubs=stubs + [loopmem], **common),
+        Ob("mux_ctor", func="h_mux_ctor", unwind=51, unwindset={"memset.0": 1000}, defines={"ENV_LOOP_MEM": 1},
+           desc="vbi_dvb_pes_mux_new / vbi_dvb_ts_mux_new(pid symbolic) return an object whose every field and initialised PES header bytes equal the directly constructed "
+                "state used by the other mux obligations; NULL exactly for PIDs outside 0x10..0x1FFE",
+           encodes=["vbi_dvb_pes_mux_new", "vbi_dvb_ts_mux_new", "init_pes_packet_header"], bounds="none", reach=["end", "constructed"],
+           timeout=120, vin_size=64, stubs=stubs + [loopmem], **common),
         Ob("mux_config", func="h_mux_config", unwind=4,
            desc="documented defaults; set_pes_packet_size rounds min up / max down to multiples of 184 within 184..65504 and raises max to min; "
                 "set_data_identifier accepts exactly 0x10..0x1F, 0x99..0x9B and keeps the old value otherwise; ts_mux_new accepts exactly PID 0x10..0x1FFE",
